@@ -53,6 +53,9 @@ its strips of (A, P, R, A_c) of every level (recorded by the coarsening wrapper)
                      `solve` / `bsolve` with smoothed aggregation: the recording wrapper also logs P_tent (T) and the strength pattern (S)
                      of every level; oracle o.saform: P = (I - omega Df^-1 A_f) P_tent on the gathered operators of EVERY level
                      (block products in the order Df^-1 * A, 1e-9), strength pattern of level l = the test with eps_strong * 0.5^l.
+  smoothers          ops `relax` / `brelax` (tools/props/c12_relax.py): amgcl::runtime::mpi::relaxation::wrapper<Backend> itself, all 9 types, built
+                     through the property tree on the distributed matrix, apply_pre / apply_post / apply compared with the extracted model
+                     DistRelax.v (op m.drelax) exactly where the model run is binary64-exact, else to 2^-40; thin partitions.
 """
 import random, re
 from fractions import Fraction as F
@@ -97,6 +100,8 @@ RULE = ("cases derived from VERIF_SEED by tools/props/C12.py: coarsening {aggreg
         "diagonals fixed up so that the filtered diagonal is a power of two, eps_strong in {1/4, 1/2, 1/8, 0, 0.08}, relax in {3/4, 3/2, 3/8, 1}, 1..3 calls, "
         "estimate_spectral_radius in 20% of the scalar cases, random contiguous partitions with empty ranks on 1..4 (1..8) ranks; "
         "non-trivial = all ranks returned a result line")
+
+ASSUMPTIONS = ASSUMPTIONS + c12_relax.ASSUMPTIONS; TRUSTED_BASE = TRUSTED_BASE + c12_relax.TRUSTED_BASE; RULE = RULE + "; " + c12_relax.RULE
 
 COARSENINGS = ["aggregation", "smoothed_aggregation"]
 RELAX = ["spai0", "damped_jacobi", "gauss_seidel", "ilu0", "iluk", "ilup", "ilut", "spai1", "chebyshev"]
